@@ -21,10 +21,23 @@ var (
 	errInjected = errors.New("store: injected failure")
 )
 
+// sv is the value type handed to the group; it reports a size (cache.Value), so that an LRU facade
+// counts it: in "sized" configurations every second value is bigger than the whole LRU capacity.
+type sv string
+
+var bigValues bool
+
+func (s sv) Size() int {
+	if bigValues && len(s) > 0 && (s[len(s)-1]-'0')%2 == 0 {
+		return 3
+	}
+	return 1
+}
+
 // store is the instrumented backing store.
 type store struct {
 	w      *mc.World
-	m      map[mux.Int]string
+	m      map[mux.Int]sv
 	inside map[mux.Int]int // callbacks currently inside, per key
 	calls  []string        // store callbacks in the order they ran: "add(k)=v" …
 	loads  map[mux.Int]int
@@ -71,7 +84,7 @@ func (s *store) load(ctx context.Context, d interface{}) (interface{}, error) {
 
 type rec struct {
 	k mux.Int
-	v string
+	v sv
 }
 
 func (s *store) add(ctx context.Context, d interface{}) (interface{}, error) {
@@ -99,7 +112,7 @@ func (s *store) update(ctx context.Context, d interface{}, pre interface{}) (int
 		s.exit(r.k, fmt.Sprintf("update(%d)=notfound", r.k))
 		return nil, errNotFound
 	}
-	if pre != nil && pre.(string) != s.m[r.k] {
+	if pre != nil && pre.(sv) != s.m[r.k] {
 		s.w.Failf("update of key %d was handed the previous value %q but the store holds %q (stale cache)", r.k, pre, s.m[r.k])
 	}
 	s.m[r.k] = r.v
@@ -113,7 +126,7 @@ func (s *store) upsert(ctx context.Context, d interface{}, pre interface{}) (int
 		s.exit(r.k, fmt.Sprintf("upsert(%d)=FAIL", r.k))
 		return nil, errInjected
 	}
-	if pre != nil && pre.(string) != s.m[r.k] {
+	if pre != nil && pre.(sv) != s.m[r.k] {
 		s.w.Failf("upsert of key %d was handed the previous value %q but the store holds %q (stale cache)", r.k, pre, s.m[r.k])
 	}
 	s.m[r.k] = r.v
@@ -158,7 +171,7 @@ func (x *world) do(op int, k mux.Int, ctx context.Context) string {
 	w := x.w
 	w.Touch()
 	x.nval++
-	v := fmt.Sprintf("v%d", x.nval)
+	v := sv(fmt.Sprintf("v%d", x.nval))
 	x.inflight[k]++
 	x.epoch[k]++
 	e0 := x.epoch[k]
@@ -234,16 +247,18 @@ type cfg struct {
 	lru  int64 // 0: map cache
 	size int
 	keys []mux.Int
+	big  bool // every second value is bigger than the whole LRU
 }
 
 func newWorld(w *mc.World, c cfg, faults bool) *world {
 	var g *mux.WorkerGrp
+	bigValues = c.big
 	if c.lru > 0 {
 		g = mux.NewWorkGrpWithLRU(c.lru, mux.WithSize(c.size), mux.WithDeep(8))
 	} else {
 		g = mux.NewWorkGrpWithMapCache(mux.WithSize(c.size), mux.WithDeep(8))
 	}
-	s := &store{w: w, m: map[mux.Int]string{}, inside: map[mux.Int]int{}, loads: map[mux.Int]int{}, faults: faults}
+	s := &store{w: w, m: map[mux.Int]sv{}, inside: map[mux.Int]int{}, loads: map[mux.Int]int{}, faults: faults}
 	x := &world{w: w, g: g, s: s, inflight: map[mux.Int]int{}, epoch: map[mux.Int]int{}, keys: c.keys}
 	w.Data["x"] = x
 	g.Start()
@@ -334,7 +349,13 @@ func ordered(c cfg) *mc.Scenario {
 			x.finish()
 			x.inflight[k] -= 3
 			want := fmt.Sprintf("[add(%d)=A update(%d)=B upsert(%d)=C]", k, k, k)
-			if got := fmt.Sprint(s.calls); got != want {
+			var writes []string // a Get that finds the key evicted (oversized value) loads; loads do not change the store
+			for _, c := range s.calls {
+				if len(c) < 5 || c[:5] != "load(" {
+					writes = append(writes, c)
+				}
+			}
+			if got := fmt.Sprint(writes); got != want {
 				w.Failf("operations on key %d were accepted in the order add, update, upsert but applied to the store as %s", k, got)
 			}
 			if s.m[k] != "C" {
@@ -360,11 +381,12 @@ func sequential(c cfg, depth int, dev [2]int) *mc.Scenario {
 
 func scenarios(r *ev.Run) []*mc.Scenario {
 	cfgs := []cfg{
-		{"map/workers=1", 0, 1, []mux.Int{1, 2}},
-		{"map/workers=2", 0, 2, []mux.Int{1, 3}}, // 1 and 3 share worker 1
-		{"map/workers=2/two-workers", 0, 2, []mux.Int{1, 2}},
-		{"lru=1/workers=1", 1, 1, []mux.Int{1, 2}},
-		{"lru=2/workers=1", 2, 1, []mux.Int{1, 2}},
+		{"map/workers=1", 0, 1, []mux.Int{1, 2}, false},
+		{"map/workers=2", 0, 2, []mux.Int{1, 3}, false}, // 1 and 3 share worker 1
+		{"map/workers=2/two-workers", 0, 2, []mux.Int{1, 2}, false},
+		{"lru=1/workers=1", 1, 1, []mux.Int{1, 2}, false},
+		{"lru=2/workers=1", 2, 1, []mux.Int{1, 2}, false},
+		{"lru=2/workers=1/oversized-values", 2, 1, []mux.Int{1, 2}, true},
 	}
 	var scs []*mc.Scenario
 	for ci, c := range cfgs {
